@@ -256,6 +256,53 @@ func (m c10) shared(c *Ctx, r *RNG, base *TypeSpec, res *ResSpec, tree *FSpec, g
 	}
 }
 
+// untouched evaluates filters on soft resources in states that only a caller who bypasses the usual Set calls
+// reaches: a SoftResource literal on which no method was ever called (every field reads its zero value), and a
+// resource whose type gained a field after its last use (the new field reads its zero value).
+func (m c10) untouched(c *Ctx, base *TypeSpec, res *ResSpec, tree *FSpec) {
+	zero := &ResSpec{Type: base.Name, Attrs: map[string]Val{}, ToOne: map[string]string{}, ToMany: map[string][]string{}}
+	want := evalFilter(tree, base, zero)
+	var got bool
+	if pi := Guard(func() {
+		typ := buildType(base)
+		sr := &jsonapi.SoftResource{Type: &typ}
+		got = tree.build().IsAllowed(sr)
+	}); pi != nil {
+		c.Violate("panic@"+pi.Frame+"/"+panicClass(pi.Val)+"/untouched-soft", "IsAllowed(%s) on a SoftResource literal nobody has used yet: %s", clip(tree.String(), 800), pi)
+		return
+	}
+	c.Count("untouched_soft_resources")
+	if got != want {
+		c.Violate("semantics/untouched-soft", "IsAllowed=%v on a SoftResource literal nobody has used yet (all fields zero), read as logic %v; filter %s type %s", got, want, clip(tree.String(), 800), jsonStr(base))
+		return
+	}
+	zv := Val{K: KInt, I: "0"}
+	ten := Val{K: KInt, I: "10"}
+	ext := *base
+	ext.Attrs = append(append([]AttrSpec{}, base.Attrs...), AttrSpec{Name: "zz-late", Kind: KInt})
+	ext.Rels = append(append([]RelSpec{}, base.Rels...), RelSpec{Name: "zz-late-rel", ToType: "x"})
+	empty := ""
+	for _, f := range []FSpec{{Op: "=", Field: "zz-late", Val: &zv}, {Op: "<", Field: "zz-late", Val: &ten}, {Op: ">=", Field: "zz-late", Val: &ten}, {Op: "!=", Field: "zz-late", Val: &zv},
+		{Op: "has", Field: "zz-late-rel", Str: &empty}, {Op: "=", Field: "zz-late-rel", IsList: true, Strs: []string{}}} {
+		f := f
+		want := evalFilter(&f, &ext, res)
+		if pi := Guard(func() {
+			sr := buildResource(base, res).(*jsonapi.SoftResource)
+			_ = sr.Type.AddAttr(jsonapi.Attr{Name: "zz-late", Type: jsonapi.AttrTypeInt})
+			_ = sr.Type.AddRel(jsonapi.Rel{FromType: base.Name, FromName: "zz-late-rel", ToType: "x"})
+			got = f.build().IsAllowed(sr)
+		}); pi != nil {
+			c.Violate("panic@"+pi.Frame+"/"+panicClass(pi.Val)+"/late-field", "IsAllowed(%s) right after the resource's type gained the field: %s", f.String(), pi)
+			return
+		}
+		c.Count("late_field_filters")
+		if got != want {
+			c.Violate("semantics/late-field/"+f.Op, "IsAllowed=%v for %s right after the resource's type gained the field (it reads its zero value), read as logic %v", got, f.String(), want)
+			return
+		}
+	}
+}
+
 func cloneKids(in []FSpec) []FSpec {
 	out := make([]FSpec, len(in))
 	for i := range in {
@@ -383,6 +430,7 @@ func (m c10) Case(c *Ctx, r *RNG) {
 	c.Count("trees")
 	m.reuse(c, r, &base, res, &tree)
 	m.shared(c, r, &base, res, &tree, want)
+	m.untouched(c, &base, res, &tree)
 	if tree.Op != "and" && tree.Op != "or" {
 		c.Count("leaf/" + tree.Op)
 	}
